@@ -74,6 +74,13 @@ def cases(draw, max_chroms=4, max_bins=6, max_nnz=None, min_total_bins=0):
         symmetric, colset, count_dt = True, ["count"], draw(st.sampled_from(["int32", "int64"]))
         rows = draw(gen.pixels(n, True, count=st.integers(1, 1000), max_nnz=max_nnz))
         rows = [[r[0], r[1], r[2], 0, 0] for r in rows]
+    elif min_total_bins:
+        # few pixels SPREAD over the whole (tall) matrix, high bin ids included
+        pairs = draw(st.lists(st.tuples(st.integers(0, n - 1), st.integers(0, n - 1)), min_size=2, max_size=max_nnz or 40,
+                              unique_by=lambda t: (min(t), max(t)) if symmetric else t))
+        coords = sorted({((min(a, b), max(a, b)) if symmetric else (a, b)) for a, b in pairs} | {(n - 2, n - 1)})
+        cval = gen.DYADIC64 if count_dt == "float64" else gen.COUNT_VALUES
+        rows = [[i, j, draw(cval), draw(VALUE_KINDS[x_dt]), draw(VALUE_KINDS[y_dt])] for i, j in coords]
     else:
         rows = draw(gen.pixels(
             n, symmetric,
